@@ -18,7 +18,7 @@ ASSUMPTIONS = ['worlds enumerated (<= 6 atoms) only to certify that a rewrite pr
 TRUSTED = []
 FLOOR = {'quick': 300, 'thorough': 3000}
 BUDGET = {'quick': 100, 'thorough': 1500}
-N = {'quick': 800, 'thorough': 12000}
+N = {'quick': 600, 'thorough': 12000}
 TRANSFORMS = ['rekey0', 'rekey-sparse', 'reorder', 'reverse', 'rename', 'signature', 'rewrite-base',
               'rewrite-query', 'query-key', 'compose']
 INTERNAL_NAMES = ['eta_1', 'eta_2', 'mv_1', 'mf_1', 'mv_query', 'gamma-_1', 'eta_3', 'mf_2']
